@@ -42,7 +42,7 @@ RULE = ("seeded generator (VERIF_SEED): every plaintext length 0..1024 x {ecb,cb
         "with fresh keys), plus lengths up to 8 KiB sampled; a third of the messages end in bytes that look like a pad (k x k, 16 x 0x10, zeros, lone pad length); "
         "IV random / all-ff / package default, always installed through SetIV; `in` placed in front of 0..48 canary bytes inside one backing array "
         "(a quarter with no spare capacity), backing arrays, key and IV compared after the calls; key lengths 0..64; decryption of ragged / "
-        "invalid / empty inputs (no panic required, behaviour recorded); SetIV with lengths 0..40; histories of 2..4 helper calls (modes and directions "
+        "invalid / empty inputs (no panic required, behaviour recorded) and of genuine ciphertexts made by crypto/cipher (must return the message); SetIV with lengths 0..40; histories of 2..4 helper calls (modes and directions "
         "mixed) with SetIV (new IV, IV counted up in place, rejected lengths, or none) in between, on ONE key array, ONE IV array and ONE in array "
         "whose contents are overwritten in place between calls, each result checked against the values at call time and the IV in force. Non-trivial: message or input non-empty; "
         "distinct = distinct case text")
@@ -104,6 +104,20 @@ def py_decrypt(mode, key, iv, c):
     return out[:-k]
 
 
+def _raw_pad16(mode, key, iv, c):
+    """does c decrypt to exactly one block of 0x10 padding after an empty message? (py_decrypt returns b"" for that too)"""
+    if len(c) != 16:
+        return False
+    fb = iv
+    if mode == "ecb":
+        p = sm4_block(key, c, True)
+    elif mode == "cbc":
+        p = _xor(sm4_block(key, c, True), fb)
+    else:
+        p = _xor(c, sm4_block(key, fb))
+    return p == bytes([16]) * 16
+
+
 def nontrivial(f):
     if f[0] == "R":
         return f[5] != "-"
@@ -156,12 +170,21 @@ def predicate(f, io):
             return False, "caller memory (in, spare capacity behind it, key or IV) was written"
         if orc != "1":
             return False, "ciphertext differs from crypto/cipher's %s over the PKCS#7-padded plaintext" % mode
-        if len(m) <= 40 or int(f[1]) % 23 == 0:
+        if True:   # the independent oracle on every case
             iv = _unhex(f[4]) if f[4] != "-" else bytes(16)
             if py_encrypt(mode, key, iv, m) != ct:
                 return False, "ciphertext differs from SP 800-38A %s over the PKCS#7-padded plaintext" % mode
         return True, ""
     if op == "D":
+        # inputs that are a valid ciphertext (whole blocks decrypting to a correctly padded string) must return the
+        # un-padded message; for everything else only "returns" is required (behaviour recorded, outside the property)
+        key, c = _unhex(f[3]), _unhex(f[5])
+        iv = _unhex(f[4]) if f[4] != "-" else bytes(16)
+        if len(key) == 16 and len(c) > 0 and len(c) % 16 == 0:
+            want = py_decrypt(f[2], key, iv, c)
+            raw_valid = want != b"" or _raw_pad16(f[2], key, iv, c)
+            if raw_valid and (io[0] != "ok" or _unhex(io[1]) != want):
+                return False, "decryption of a valid %s ciphertext does not return the padded-then-unpadded message" % f[2]
         return True, ""
     if op == "Q":
         calls = f[2].split(",")
